@@ -103,7 +103,7 @@ def build(case):
     elif kind == "tabular":
         d = rng.randint(2, 5)
         hetero = rng.random() < 0.5
-        layers = [rng.choice([{"name": "categorical", "args": {"num_categories": rng.randint(2, 3)}}, {"name": "gaussian", "args": {}}]) for _ in range(d)] if hetero else \
+        layers = [rng.choice([{"name": "categorical", "args": {"num_categories": rng.randint(2, 3)}}, {"name": "gaussian", "args": {}}, {"name": "binomial", "args": {"total_count": rng.randint(1, 3)}}]) for _ in range(d)] if hetero else \
             {"name": inp if inp != "binomial" else "categorical", "args": ikw if inp == "categorical" else ({"num_categories": 2} if inp == "binomial" else {})}
         if sp in ("cp-t", "tucker"):
             ns = ni
@@ -116,7 +116,7 @@ def build(case):
             names = [l["name"] for l in layers] if isinstance(layers, list) else [layers["name"]] * d
             data = z.clone()
             for i, nm in enumerate(names):
-                if nm == "categorical":
+                if nm in ("categorical", "binomial"):
                     data[:, i] = (z[:, i] > 0).float()
             sc = data_modalities.tabular_data("chow-liu-tree", data=data, input_layers=layers, num_input_units=ni, sum_product_layer=sp, num_sum_units=ns, num_classes=nc, use_mixing_weights=mixing)
             feats.add("alg:ChowLiuTree")
@@ -127,12 +127,17 @@ def build(case):
         n = rng.randint(1, 5)
         order = list(range(n))
         rng.shuffle(order)
-        sc = pgms.hmm(order, input_layer=inp, num_latent_states=rng.randint(1, 3), input_layer_kwargs=ikw)
-        desc = dict(order=order, inp=inp)
+        # per-variable arguments (a different domain size for each variable) half of the time
+        hetero = rng.random() < 0.5 and inp != "gaussian"
+        kw = [({"num_categories": 2 + (v % 3)} if inp == "categorical" else {"total_count": 1 + (v % 3)}) for v in range(n)] if hetero else ikw
+        sc = pgms.hmm(order, input_layer=inp, num_latent_states=rng.randint(1, 3), input_layer_kwargs=kw)
+        desc = dict(order=order, inp=inp, hetero=hetero)
     elif kind == "ff":
         n = rng.randint(1, 5)
-        sc = pgms.fully_factorized(n, input_layer=inp, input_layer_kwargs=ikw)
-        desc = dict(n=n, inp=inp)
+        hetero = rng.random() < 0.5 and inp != "gaussian"
+        kw = [({"num_categories": 2 + (v % 3)} if inp == "categorical" else {"total_count": 1 + (v % 3)}) for v in range(n)] if hetero else ikw
+        sc = pgms.fully_factorized(n, input_layer=inp, input_layer_kwargs=kw)
+        desc = dict(n=n, inp=inp, hetero=hetero)
     elif kind == "cp":
         shape = tuple(rng.randint(2, 3) for _ in range(rng.randint(2, 4)))
         sc = TF.cp(shape, rng.randint(1, 3), input_layer="categorical", weight_param=SOFTMAX)
